@@ -147,20 +147,21 @@ def V(i=0, sort=None):
     return z3.Var(i, sort or I)
 
 
-def generic_sum_theory(prefix="sums"):
-    """split, shift, reversal, cyclic shift and mirror of  sum_{lo <= j < hi} g(j)  for an arbitrary g: int -> real"""
+def generic_sum_theory(prefix="sums", mutant=None):
+    """(`mutant`: a deliberately false variant of one statement, used only by the self-test of the lemma engine, see NOTES-C03.md)
+    split, shift, reversal, cyclic shift and mirror of  sum_{lo <= j < hi} g(j)  for an arbitrary g: int -> real"""
     th = Theory(prefix)
     g = z3.Function("g_sl", I, R)
     a, b, c, m, N, k = z3.Ints("a_sl b_sl c_sl m_sl N_sl k_sl")
     S = CSum(lambda j: g(T.to_z3(j)))
 
     # (1) sum over [a, c) = sum over [a, b) + sum over [b, c)
-    split = th.induction("range_split", c, b, [a, b, c], [g], [a <= b], S(a, c) == S(a, b) + S(b, c),
+    split = th.induction("range_split", c, b, [a, b, c], [g], [a <= b] if mutant != "split_without_order" else [], S(a, c) == S(a, b) + S(b, c),
                          note="sum_{a<=j<c} g = sum_{a<=j<b} g + sum_{b<=j<c} g for a <= b <= c, induction on c (schemas: empty, split-last)")
 
     # (2) index shift: sum_{a<=j<b} g(j+m) = sum_{a+m<=j<b+m} g(j)
     Sh = CSum(lambda j: g(T.to_z3(j) + m))
-    shift = th.induction("index_shift", b, a, [a, b, m], [g], [], Sh(a, b) == S(a + m, b + m),
+    shift = th.induction("index_shift", b, a, [a, b, m], [g], [], Sh(a, b) == S(a + m, b + m + (1 if mutant == "shift_off_by_one" else 0)),
                          note="sum_{a<=j<b} g(j+m) = sum_{a+m<=j<b+m} g(j) for a <= b and any integer m, induction on b")
 
     # (3) split-first: sum_{a<=j<b} g = g(a) + sum_{a+1<=j<b} g   (a < b)
@@ -182,9 +183,9 @@ def generic_sum_theory(prefix="sums"):
                      note="x mod N = x on [0,N), x-N on [N,2N), x+N on [-N,0)", meta={"abstract_int_mod": False})
     jj = z3.Int("jj_sl")
     mod_hyp = z3.ForAll([jj], modf.inst({a: jj}))
-    Cy = CSum(lambda j: g((T.to_z3(j) + k) % N))
+    Cy = CSum(lambda j: g((T.to_z3(j) + k) % N if mutant != "cyclic_no_mod" else T.to_z3(j) + k))
     cyc = th.direct(
-        "cyclic_shift", [N, k], [g], [N >= 1, 0 <= k, k <= N], Cy(0, N) == S(0, N),
+        "cyclic_shift", [N, k], [g], [N >= 1, 0 <= k, k <= N], Cy(0, N) == S(0, N + (1 if mutant == "cyclic_one_more_term" else 0)),
         using=[split.inst({a: 0, b: N - k, c: N}, {g: g((j0 + k) % N)}),       # left side split at N-k
                mod_hyp,                                                         # resolves the modulo on each part (congruence schema)
                shift.inst({a: 0, b: N - k, m: k}),                              # first part: = sum_{k<=j<N} g
@@ -199,7 +200,7 @@ def generic_sum_theory(prefix="sums"):
                      note="sum_{j<N} g((j-k) mod N) = sum_{j<N} g(j): (j-k) mod N = (j+(N-k)) mod N")
 
     # (6) mirror: sum_{j<N} g((N-j) mod N) = sum_{j<N} g(j)
-    Mi = CSum(lambda j: g((N - T.to_z3(j)) % N))
+    Mi = CSum(lambda j: g((N - T.to_z3(j)) % N if mutant != "mirror_no_mod" else N - T.to_z3(j)))
     mir = th.direct("mirror", [N], [g], [N >= 1], Mi(0, N) == S(0, N),
                     using=[first.inst({a: 0, b: N}, {g: g((N - j0) % N)}), mod_hyp, rev.inst({a: 1, b: N, c: N}), first.inst({a: 0, b: N})],
                     note="sum_{j<N} g((N-j) mod N) = sum_{j<N} g(j): the j = 0 term is g(0), the rest is the reversal of [1, N)")
@@ -208,7 +209,7 @@ def generic_sum_theory(prefix="sums"):
     al, be = z3.Reals("al_sl be_sl")
     Sh2 = CSum(lambda j: h(T.to_z3(j)))
     Sl = CSum(lambda j: al * g(T.to_z3(j)) + be * h(T.to_z3(j)))
-    lin2 = th.induction("linear_combination", b, a, [a, b, al, be], [g, h], [], Sl(a, b) == al * S(a, b) + be * Sh2(a, b),
+    lin2 = th.induction("linear_combination", b, a, [a, b, al, be], [g, h], [], Sl(a, b) == al * S(a, b) + (be if mutant != "linearity_wrong_factor" else al) * Sh2(a, b),
                         note="sum_{a<=j<b} (al g(j) + be h(j)) = al sum g + be sum h, induction on b")
     return th, dict(g=g, h=h, a=a, b=b, c=c, m=m, N=N, k=k, al=al, be=be, S=S, split=split, shift=shift, first=first, rev=rev, cyc=cyc, cycb=cycb,
                     mir=mir, modf=modf, lin2=lin2, mod_hyp=mod_hyp)
